@@ -447,7 +447,8 @@ def setAttrV (E : Env) : Nat → Val → Nat → Val → Except Err Val
 def prepareAttrValue (E : Env) : Nat → Val → AttrSpec → Val → Kw → Except Err Val
   | 0, _, _, _, _ => .error .runtimeError
   | n+1, inst, sp, v, attrs =>
-    match mutateValue E n MISSING
+    if v = UNCHANGED then .ok UNCHANGED       -- nothing to prepare: the current value is to be kept
+    else match mutateValue E n MISSING
         { new := v, prepare := sp.prep.map (fun p => E.prep p inst), ty := some sp.ty, attrs := attrs } with
     | .error e => .error e
     | .ok v => if sp.ty.isCollection then collPrepare E n inst sp v else .ok v
@@ -579,7 +580,7 @@ def withAttr (E : Env) (n : Nat) (recv : Val) (sp : AttrSpec) (v : Val) (kw : Kw
 def updateAttr (E : Env) (n : Nat) (recv : Val) (sp : AttrSpec) (v : Val) (kw : Kw) (inplace cond : Bool) :
     Except Err Outcome :=
   if !kwOk E sp.ty (kw.map (·.1)) then .error .typeError
-  else if !cond then .ok ⟨recv, .receiver⟩
+  else if !cond || (v = UNCHANGED && kw.isEmpty) then .ok ⟨recv, .receiver⟩
   else match mutateValue E n (E.getAttr recv sp.name) { new := v, ty := some sp.ty, attrs := kw } with
     | .error e => .error e
     | .ok u => withAttr E n recv sp u [] inplace true
@@ -948,15 +949,16 @@ def AssignOk (E : Env) (sp : AttrSpec) (obj v : Val) : Prop :=
   v.isSent = false ∧ prep E sp obj v ≠ MISSING
 
 /-- The calls the documentation describes (everything else is either the open finding about
-MISSING/EMPTY/UNCHANGED or undocumented: a dict of constructor arguments together with keywords,
+MISSING/EMPTY or undocumented: UNCHANGED together with keywords in `update_<a>`, a dict of constructor
+arguments together with keywords,
 a transform of an attribute that holds no value, preparers answering MISSING). -/
 def Documented (E : Env) (m : Nat) (recv : Val) (c : Call) : Prop :=
   match c.op with
   | .withA a v kw => ∀ sp, specOf E recv a = some sp →
-      (kw = [] → AssignOk E sp recv v ∨ (v = UNCHANGED ∧ sp.ty.isCollection = false)) ∧
+      (kw = [] → AssignOk E sp recv v ∨ v = UNCHANGED) ∧
       (kw ≠ [] → v.isSent = false → prep E sp recv v ≠ MISSING ∧ isDict (prep E sp recv v) = false)
   | .updateA a v kw => ∀ sp, specOf E recv a = some sp →
-      v ≠ UNCHANGED ∧ (kw = [] → v.isSent = false) ∧
+      (v = UNCHANGED → kw = []) ∧ (kw = [] → v.isSent = false ∨ v = UNCHANGED) ∧
       (∀ base, base = (if v.isSent then E.getAttr recv sp.name else v) →
         (isDict base = true → conforms E sp.ty (.dict .nil) = true) ∧
         (base = MISSING → sp.ty.kwClass.isSome)) ∧
@@ -965,11 +967,11 @@ def Documented (E : Env) (m : Nat) (recv : Val) (c : Call) : Prop :=
       (isDict (E.getAttr recv sp.name) = true → conforms E sp.ty (.dict .nil) = true) ∧
       (E.getAttr recv sp.name = MISSING → sp.ty.kwClass.isSome) ∧
       (∀ u, transformNested E m recv sp f kt = .ok u →
-        AssignOk E sp recv u ∨ (u = UNCHANGED ∧ sp.ty.isCollection = false))
+        AssignOk E sp recv u ∨ u = UNCHANGED)
   | .resetA a => ∀ sp, specOf E recv a = some sp →
       sp.defaultVal ≠ MISSING → AssignOk E sp recv sp.defaultVal
   | .setattr a v => ∀ sp, specOf E recv a = some sp →
-      AssignOk E sp recv v ∨ (v = UNCHANGED ∧ sp.ty.isCollection = false)
+      AssignOk E sp recv v ∨ v = UNCHANGED
   | .delattr a => ∀ sp, specOf E recv a = some sp →
       sp.defaultVal ≠ MISSING → AssignOk E sp recv sp.defaultVal
   | .update _ _ => True
